@@ -19,7 +19,7 @@ STREAMS = {
     "gcase": ("upgrade.Config.Get vs Upgrade.config_get", ["config_get_correct"]),
     "pcase": ("upgrade.NewConfigFromStrings + Config.Get vs Upgrade.config_parse / sconfig_get", ["config_parse_correct"]),
     "scase": ("suggest.suggestMavenVersion vs Suggest.suggest_maven_version",
-              ["suggest_within_level", "suggest_not_downgrade", "suggest_no_panic", "suggest_respelling_not_upward_refuted"]),
+              ["suggest_within_level", "suggest_not_downgrade", "suggest_strictly_up", "suggest_no_panic"]),
     "qcase": ("MavenSuggester.Suggest / guidedremediation.Update vs Suggest.suggest_all", ["suggest_none_untouched"]),
     "rcase": ("relaxer.NpmRelaxer.Relax vs Relax.relax_npm",
               ["relax_none_untouched", "relax_strictly_up", "relax_level_checked", "relax_range_within_level"]),
@@ -46,9 +46,9 @@ META = {
                   "relax_strictly_up / relax_level_checked / relax_range_within_level (every valid level, measured from the version "
                   "the requirement resolves to) for the model of NpmRelaxer.Relax; relax_only_touches_responsible_directs / "
                   "relax_terminates (measure: position of the highest matching version per direct requirement) for the model of "
-                  "relax.patchVulns; suggest_within_level / suggest_none_untouched / suggest_not_downgrade / suggest_no_panic for "
+                  "relax.patchVulns; suggest_within_level / suggest_none_untouched / suggest_strictly_up / suggest_no_panic for "
                   "the model of suggestMavenVersion and MavenSuggester.Suggest. Six defects were repaired in /repo (fix commits "
-                  "e6d56740, 81d44206, 37eca69c, 7f88acb2, c3af8db4) and their witnesses run first on every run; still refuted at "
+                  "e6d56740, 81d44206, 37eca69c, 7f88acb2, c3af8db4, 592534ae) and their witnesses run first on every run; still refuted at "
                   "full strength: override_resolved_version_refuted (a package need not resolve to the override asked for; "
                   "combined patches can pull it down). The models are tied to the code on every run by evaluating them "
                   "with vm_compute on the oracle answers recorded while the real functions ran.",
